@@ -33,6 +33,9 @@ type Role struct {
 	Multi     bool            // several instances at once (go in a loop, not sequenced)
 	Join      ssa.Instruction // WaitGroup.Wait joining the instances, in In
 	Scoped    bool            // every instance has ended when the spawning function returns (results collected over a channel)
+	// JoinElsewhere: the instances report on a channel that the spawning function hands back to
+	// its caller; whether and where they are collected is not followed
+	JoinElsewhere bool
 	Entry     map[*ssa.Function]map[string]bool
 	PartTy    map[string]bool // per-instance object types (multi roles)
 }
@@ -47,6 +50,7 @@ type RAccess struct {
 }
 
 type RaceEngine struct {
+	BadJoins [][2]string // goroutine family, where its collection can be cut short
 	capAlloc     map[FieldKey]*ssa.Alloc
 	capCells     map[ssa.Value]FieldKey
 	lingerMemo   map[*Role]bool
@@ -184,6 +188,19 @@ func NewRaceEngine(p *Prog, rv *Rendezvous) *RaceEngine {
 		}
 		if r.Join == nil {
 			r.Scoped = channelJoined(gs)
+			if !r.Scoped {
+				r.JoinElsewhere = channelHandedBack(gs)
+				if r.JoinElsewhere {
+					// the single caller of the spawner collects one result per instance?
+					switch complete, where := callerCollects(p, gs); {
+					case complete:
+						r.JoinElsewhere, r.Scoped = false, true
+						e.Notes = append(e.Notes, "goroutines started in "+FuncName(gs.In)+" are collected by its caller ("+where+"): treated as ended when the spawning function returns")
+					case where != "":
+						e.BadJoins = append(e.BadJoins, [2]string{id, where})
+					}
+				}
+			}
 		}
 		e.byID[id] = r
 		e.Roles = append(e.Roles, r)
@@ -2879,4 +2896,140 @@ func nestedValueStructs(nt *types.Named, depth int) []*types.Named {
 	}
 	walk(nt, depth)
 	return out
+}
+
+// channelHandedBack: the goroutine sends on a channel made in the spawning function on every
+// path, and the spawning function returns that channel: the results are collected by a caller.
+func channelHandedBack(gs GoStart) bool {
+	if len(gs.Callees) != 1 {
+		return false
+	}
+	cl := gs.Callees[0]
+	var made []*ssa.MakeChan
+	Instrs(gs.In, func(in ssa.Instruction) {
+		if mk, ok := in.(*ssa.MakeChan); ok {
+			made = append(made, mk)
+		}
+	})
+	for _, mk := range made {
+		returned := false
+		Instrs(gs.In, func(in ssa.Instruction) {
+			ret, ok := in.(*ssa.Return)
+			if !ok {
+				return
+			}
+			for _, res := range ret.Results {
+				v := res
+				for {
+					ct, isCT := v.(*ssa.ChangeType)
+					if !isCT {
+						break
+					}
+					v = ct.X
+				}
+				if v == ssa.Value(mk) || resolveCell(v) == ssa.Value(mk) {
+					returned = true
+				}
+			}
+		})
+		if !returned {
+			continue
+		}
+		// the goroutine sees it as a free variable or a parameter
+		sends := false
+		Instrs(cl, func(in ssa.Instruction) {
+			if sd, ok := in.(*ssa.Send); ok {
+				c := sd.Chan
+				if u, isU := c.(*ssa.UnOp); isU {
+					c = u.X
+				}
+				switch c.(type) {
+				case *ssa.FreeVar, *ssa.Parameter:
+					if types.Identical(derefType(c.Type()).Underlying(), mk.Type().Underlying()) || true {
+						sends = true
+					}
+				}
+			}
+		})
+		if sends {
+			return true
+		}
+	}
+	return false
+}
+
+// callerCollects: the spawning function gs.In (which returns the result channel) has one static
+// call site; there the caller receives from the returned channel once per element of the same
+// collection the spawner started a goroutine for, in a loop that has no other way out.  where
+// names the collecting loop (complete) or the early way out (incomplete); "" when no collecting
+// loop was found at all.
+func callerCollects(p *Prog, gs GoStart) (complete bool, where string) {
+	sites, all := p.staticCallSites(gs.In)
+	if !all || len(sites) != 1 {
+		return false, ""
+	}
+	call, ok := sites[0].(*ssa.Call)
+	if !ok {
+		return false, ""
+	}
+	caller := call.Parent()
+	l1 := LoopContaining(RangeLoops(gs.In), gs.Instr)
+	if l1 == nil {
+		return false, ""
+	}
+	o1, f1 := l1.OverField()
+	// the channel in the caller: the call's result, possibly kept in a local
+	isChan := func(v ssa.Value) bool {
+		for i := 0; i < 4; i++ {
+			if v == ssa.Value(call) {
+				return true
+			}
+			switch x := v.(type) {
+			case *ssa.ChangeType:
+				v = x.X
+			case *ssa.UnOp:
+				if rv := resolveCell(x); rv != nil && rv != ssa.Value(x) {
+					v = rv
+				} else {
+					return false
+				}
+			default:
+				return false
+			}
+		}
+		return false
+	}
+	for _, l2 := range RangeLoops(caller) {
+		o2, f2 := l2.OverField()
+		if f1 == "" || o1 != o2 || f1 != f2 {
+			continue
+		}
+		var recv ssa.Instruction
+		Instrs(caller, func(in ssa.Instruction) {
+			if u, ok := in.(*ssa.UnOp); ok && u.Op == token.ARROW && l2.Contains(u.Block()) && isChan(u.X) {
+				recv = in
+			}
+		})
+		if recv == nil || !InstrReaches(call, recv) {
+			continue
+		}
+		if !l2.EveryIteration(recv.Block()) {
+			return false, "the receive at " + p.InstrPos(recv) + " is not made on every pass of the collecting loop"
+		}
+		for _, b := range caller.Blocks {
+			if !l2.Contains(b) || b == l2.Header {
+				continue
+			}
+			for _, sc := range b.Succs {
+				if !l2.Contains(sc) && sc != l2.Header {
+					return false, "the collecting loop in " + FuncName(caller) + " can be left at " + p.InstrPos(b.Instrs[len(b.Instrs)-1]) + " before every goroutine has reported"
+				}
+			}
+			if _, isRet := b.Instrs[len(b.Instrs)-1].(*ssa.Return); isRet {
+				return false, "the collecting loop in " + FuncName(caller) + " can return at " + p.InstrPos(b.Instrs[len(b.Instrs)-1]) + " before every goroutine has reported"
+			}
+		}
+		return true, "loop at " + p.InstrPos(l2.Header.Instrs[0]) + " in " + FuncName(caller)
+	}
+	return false, ""
 }
